@@ -10,16 +10,21 @@ def run(c):
     c.rule = ("same bucket generator as C05 (namespaces x groups x metrics x fair keys, weights 1..1000 incl. unknown/zero -> clamped, fixed "
               "per-metric budgets at {0.5,0.75,1,2}x size and size-1, budgets around sum(size)*{0.1..1.5}, sum-1 and 0..30, 25% flat "
               "hierarchies), mode mix det 50% (test selector floor(len/sf), RoundF=floor; half of them with equally sized rows), quota 25% "
-              "(SampleQuota configured as in calcHostMetricBudgets, real roundSampleFactor), rand 25%. Non-trivial = run in which at least "
-              "one row was kept unconditionally and at least one row was sampled/discarded; distinct by op-sequence hash")
+              "(SampleQuota configured as in calcHostMetricBudgets, real roundSampleFactor), rand 25%. Every 6th case calls the REAL "
+              "aggregator.calcHostMetricBudgets on a real Aggregator (built-in agent, metajournal.MetricsStorage filled through ApplyEvent with 1-2 "
+              "namespaces x 1-2 groups x 1-3 metrics of various weights, 1-4 hosts, reported sizes 0..120000, receive budgets around the total) and "
+              "compares every (metric, host) budget incl. the x2 bonus with the model; its budget roundings use an unseeded generator, so the driver "
+              "tries every round-up pattern (<= 2^6) and must reproduce the observation with one of them. Non-trivial = run in which at least one "
+              "row was kept unconditionally and at least one row was sampled/discarded; host case with doubled and cut budgets; distinct by "
+              "op-sequence hash")
     c.assumptions += [
         "PRNG draws and tie order of sort.Slice are observed on the real run and passed to the model (theorems quantify over all of them)",
         "exact domain (products below 2^53, factors compared as IEEE bits); cases with a value within 1e-9 of a rounding boundary are skipped and counted",
         "weights are positive: metric EffectiveWeight is clamped to >= 1 by format.go (not re-verified here), namespace/group weights by the sampler itself (modelled)",
         "int64 overflow of sumSize*weight not modelled (MaxEffectiveWeight=12800 x MaxUncompressedBucketSize=10 MiB stays far below 2^63)",
-        "aggregator.calcHostMetricBudgets itself (host map, x2 bonus for metrics that fit, ramped budget) is not executed: it needs a live agent inside the aggregator; its sampler call (SampleQuota, namespaces/groups options, default RoundF) is what the quota mode of the harness runs",
+        "calcHostMetricBudgets: ReceiveBudgetWarming is set to 0 (rampedReceiveBudget not modelled), the decayed history of earlier seconds (ExpDecayMetrics) is reset before every call; tie order is irrelevant in quota mode (equal ratios are kept or cut together)",
     ]
-    c.prove("SH.Props.C06", extra_files=["SH/Model/Sampler.lean", "SH/Model/SamplerIO.lean", "SH/Lemmas/Sampler.lean"])
+    c.prove("SH.Props.C06", extra_files=["SH/Model/Sampler.lean", "SH/Model/SamplerIO.lean", "SH/Lemmas/Sampler.lean", "SH/Lemmas/SamplerTree.lean", "SH/Lemmas/SamplerDet.lean"])
     drv = c.driver(DRIVER)
     binary = c.go_build(HARNESS, name="verif-c06")  # own binary name: C05 and C06 may run concurrently
     if binary and drv:
@@ -47,14 +52,19 @@ META = {
              "code, through recursion run_fits_all_kept); if everything fits nothing reaches the sampling loop (all_fit_rest_nil, "
              "all_fit_nothing_sampled, bucket_fits_nothing_sampled); larger ratio => not smaller factor (factor_monotone_in_ratio); quota mode: "
              "quota = floor(size*budget/(denom*sumSize)), monotone in size, sum <= budget share (quota_proportional, quota_monotone, "
-             "quota_sum_le_budget). Tied to the code by replaying every generated bucket on the real sampler and the compiled model "
+             "quota_sum_le_budget; with the x2 bonus of calcHostMetricBudgets: host_budget_cases, sampled_row_gets_no_bonus, host_budgets_le_twice_share); "
+             "deterministic selection never keeps more than the budget plus the fixed budgets in force, by induction over the whole partition tree "
+             "(det_kept_le_budget, det_kept_le_budget_plain; SH/Lemmas/SamplerDet.lean), for rows of one size per metric; for rows of arbitrary "
+             "sizes the code bounds the NUMBER of kept rows per leaf (det_leaf_count_le) and the byte form is false (det_size_bound_needs_uniform_rows). "
+             "Tied to the code by replaying every generated bucket on the real sampler and the compiled model "
              "(decisions, factor bits, quotas, MetricGroups budgets)."),
     "note": ("Genuine defect (same root cause as C05, fixed by fixes/C05-sample-fit.diff): a metric exceeding its fixed budget stops the keep loop; partitions "
              "that fit (own fixed budget or share) reach sample() with sf<=1 and lose rows with factor 2*sf (oracle sigs fixed-budget-fits-but-sampled, "
-             "fits-share-but-sampled; Lean witness orig_samples_partition_that_fits). Partial: det_kept_le_share_partial proves the per-leaf bound "
-             "(whales + selected <= len/sf), not the sum over the hierarchy (bucket level checked by oracle det-kept-size-over-budget on equally sized "
-             "rows, as the repo's tests do; with rows of different size the statement is false: a whale may exceed the budget). Quota sums: with the "
-             "default random RoundF the sum over nested namespaces/groups can exceed the budget by one per rounded-up group (oracle allows exactly that); "
-             "the x2 bonus of calcHostMetricBudgets is outside the statement. Reported SampleFactors (per-metric averages) are not modelled."),
+             "fits-share-but-sampled; Lean witness orig_samples_partition_that_fits). det_kept_le_budget needs: rows of one metric have one size >= 2 bytes, SampleKeepSingle off, NoSampleAgent not in effect (all three keep rows regardless "
+             "of the budget; a whale larger than the budget is kept whatever the budget is). The oracle det-kept-cost-over-budget judges the form that holds "
+             "for ALL row sizes on every deterministic case meeting the other preconditions: kept rows counted at the average row size of their leaf "
+             "(metric x fair key) sum to at most budget + fixed budgets. Quota sums: with the default random RoundF the sum over nested namespaces/groups "
+             "can exceed the budget by one per rounded-up group (oracles allow exactly that). Not partial any more: calcHostMetricBudgets is executed. "
+             "Reported SampleFactors (per-metric averages) are not modelled."),
     "design_ref": "DESIGN.md §6 C06",
 }
